@@ -412,7 +412,9 @@ fn judge_c06(scn: &Scenario, out: &Out, f: &[TagFacts]) -> Option<Violation> {
     let ends: Vec<(usize, &Rec)> = out.records.iter().enumerate().filter(|(_, r)| r.kind == R_BATCH_END).collect();
     for (bi, b) in scn.batches.iter().enumerate() {
         let Some((pos, r)) = ends.iter().find(|(_, r)| r.tag as usize == bi) else { break };
-        let class = batch_class(b);
+        // a batch in which a spawn was made to fail is named after that
+        let spawn_failed = b.iter().any(|s| f[s.tag as usize].spawned.is_some_and(|x| !x.1));
+        let class = if spawn_failed { "spawn-failed".to_string() } else { batch_class(b) };
         let described: Vec<String> = b.iter().map(TSpec::describe).collect();
         panicked_so_far += b.iter().filter(|s| s.panics && f[s.tag as usize].spawned.is_some_and(|x| x.1) && !f[s.tag as usize].starts.is_empty()).count() as u64;
         // (1) no thread stack mapped
@@ -484,6 +486,12 @@ fn run_case(flavor: Flavor, case: u64, mut dec: Dec, opts: &RunOpts) -> RunOut {
     if flavor == Flavor::C05 && dec.chance(K::Fault, 1, 3) {
         cfg.faults = FaultCfg { mmap_stack: true, clone: true, munmap: false, spurious_futex: false, num: 1, den: 5, max_per_run: 2 };
     }
+    if flavor == Flavor::C06 && dec.chance(K::Fault, 1, 5) {
+        // a spawn that fails must leave nothing behind either
+        cfg.faults = FaultCfg { mmap_stack: true, clone: true, munmap: false, spurious_futex: false, num: 1, den: 6, max_per_run: 2 };
+    }
+    // half of the runs freeze a thread that was preempted inside a window for a few quanta
+    cfg.window_hold_max = *dec.pick(K::Cfg, &[0u32, 0, 6, 16]);
     if std::env::var_os("PTSIM_FAULT_MUNMAP").is_some() {
         // exploration only: shows that the stack ledger reacts; never part of a registered command
         cfg.faults = FaultCfg { mmap_stack: false, clone: false, munmap: true, spurious_futex: false, num: 1, den: 6, max_per_run: 1 };
@@ -623,7 +631,7 @@ impl Check for C05 {
         prepare_probe();
     }
     fn rule(&self) -> String {
-        "each case = one execution of probes/threads under the tracer: 1..3 (thorough 1..5) batches of 1..6 threads; per thread a result type of 7 size/alignment classes (() .. align 4096), returns or panics (1/3), 0..3 report records, optional sleep and heap allocation, handle fate join-now / join-after-the-others / drop-now / drop-later. The decision stream picks the scheduling mode (uniform, sticky 1/2 1/4 1/16, main-first, newest-first), the thread at every system-call stop, up to 6 single-step bursts of <=400 instructions (biased to the window after a thread's last record and after main's join/drop markers), and in 1/3 of the runs up to 2 failures of mmap(stack) or clone (EAGAIN/ENOMEM). every 4th case uses the debug build of the probe. non-trivial = >=2 context switches and (a futex park, a burst or a fired fault); distinct = hash of scenario x sequence of (thread, scheduling-point kind)".into()
+        "each case = one execution of probes/threads under the tracer: 1..3 (thorough 1..5) batches of 1..6 threads; per thread a result type of 11 classes (() .. align 4096, and bool / Option<u32> / Result<u8,u8> / String for niches and heap ownership), returns or panics (1/3), 0..3 report records, optional sleep and heap allocation, handle fate join-now / join-after-the-others / drop-now / drop-later. The decision stream picks the scheduling mode (uniform, sticky 1/2 1/4 1/16, main-first, newest-first), the thread at every system-call stop, up to 6 single-step bursts of <=400 instructions (biased to the window after a thread's last record and after main's join/drop markers), and in 1/3 of the runs up to 2 failures of mmap(stack) or clone (EAGAIN/ENOMEM). every 4th case uses the debug build of the probe. non-trivial = >=2 context switches and (a futex park, a burst or a fired fault); distinct = hash of scenario x sequence of (thread, scheduling-point kind)".into()
     }
     fn assumptions(&self) -> Vec<String> {
         vec![
@@ -653,7 +661,7 @@ impl Check for C06 {
     }
     fn cases(&self, tier: Tier) -> u64 {
         match tier {
-            Tier::Quick => 3_000,
+            Tier::Quick => 6_000,
             Tier::Thorough => 300_000,
         }
     }
@@ -664,7 +672,7 @@ impl Check for C06 {
         prepare_probe();
     }
     fn rule(&self) -> String {
-        "each case = one execution of probes/threads under the tracer: 2..7 (thorough 2..12) batches of 1..6 threads (1 case in 60 has 12..24 batches, thorough 1 in 40 has 20..60, i.e. up to 360 threads through one process), each thread returns or panics (1/2) and its handle is joined at once, joined after the others, dropped at once or dropped later; no failing system calls. Scheduling as in C05 (thread choice at every system-call stop, <=6 single-step bursts of <=400 instructions in the epilogue / join / drop windows). Checked per thread: its stack mapping is unmapped exactly once, whole, by itself, as its last call before exit; per batch (after the tracer's barrier): no thread stack mapped, live heap allocations = baseline + one closure per panicked thread, no double/foreign free, poison of every quarantined freed block intact (the kernel's clear-tid write or a late write by either party would break it). every 4th case uses the debug build (allocator assertions on). non-trivial = >=2 context switches, >=1 dropped handle and >=1 single-step burst; distinct = hash of scenario x sequence of (thread, scheduling-point kind)".into()
+        "each case = one execution of probes/threads under the tracer: 2..7 (thorough 2..12) batches of 1..6 threads (1 case in 60 has 12..24 batches, thorough 1 in 40 has 20..60, i.e. up to 360 threads through one process), each thread returns or panics (1/2) and its handle is joined at once, joined after the others, dropped at once or dropped later; 1 run in 5 fails up to 2 stack mmaps or clones (a failed spawn must leave nothing behind); half of the runs freeze a thread preempted inside a window for up to 6 or 16 quanta. Scheduling as in C05 (thread choice at every system-call stop, <=6 single-step bursts of <=400 instructions in the epilogue / join / drop windows). Checked per thread: its stack mapping is unmapped exactly once, whole, by itself, as its last call before exit; per batch (after the tracer's barrier): no thread stack mapped, live heap allocations = baseline + one closure per panicked thread, no double/foreign free, poison of every quarantined freed block intact (the kernel's clear-tid write or a late write by either party would break it). every 4th case uses the debug build (allocator assertions on). non-trivial = >=2 context switches, >=1 dropped handle and >=1 single-step burst; distinct = hash of scenario x sequence of (thread, scheduling-point kind)".into()
     }
     fn assumptions(&self) -> Vec<String> {
         vec![
